@@ -122,6 +122,17 @@ func checkSpecs() map[string]*CheckSpec {
 			for _, p := range [][]int{{1, 1, 2, 2, 7, 1, 2}, {2, 1, 2, 2, 3, 2, 1}, {1, 2, 3, 3, 1, 1, 3}, {3, 3, 1, 1, 2, 2, 2}} {
 				jobs = append(jobs, J(encPkg, "H_C01_tags", p...))
 			}
+			// group entry counts around 9/10 (thorough: 99/100) with blank entries
+			for _, c := range [][]int{{9, 0, 0}, {10, 0, 0}, {10, 3, 4}, {10, 0, 1}, {10, 9, 10}, {11, 4, 6}, {11, 5, 6}, {12, 2, 5}} {
+				for nested := 0; nested <= 1; nested++ {
+					jobs = append(jobs, J(encPkg, "H_C01_count", c[0], c[1], c[2], nested))
+				}
+			}
+			if tier != "quick" {
+				for _, c := range [][]int{{100, 0, 0}, {100, 50, 51}, {101, 7, 9}, {100, 0, 91}} {
+					jobs = append(jobs, J(encPkg, "H_C01_count", c[0], c[1], c[2], 0))
+				}
+			}
 			// ballast: value lengths that put BodyLength on 9/10, 99/100, 999/1000 (35=0|58=<v>| => 5+3+len+1)
 			for _, bl := range []int{8, 9, 10, 11, 98, 99, 100, 101, 998, 999, 1000, 1001} {
 				n := bl - 9
@@ -190,11 +201,11 @@ func init() {
 				jobs = append(jobs, advJobs("H_C02_roundtrip", tier, true)...)
 				return jobs
 			},
-			Explanation: "Bounded symbolic execution of serialize -> encoding.Unmarshal -> serialize on the real SSA. Values are symbolic (strings: arbitrary non-SOH bytes, so '=', digits and text resembling other fields are inside the domain and the solver looks for contents that change the parse). Asserted: no error; every leaf has the same typed value (dynamic Go type included); unpopulated leaves stay null; every group has the same number of entries in the same order; re-serialization is byte-identical. Preconditions as in the property: unique tags, first member of every entry populated, no empty value.",
-			Rule:        "case = (template, population mask, entry counts, length selector, route, strict flag) x path",
-			Bounds:      map[string]string{"quick": "22 templates (14 generic + 8 with adversarial tag sets), depth <= 3, <= 3 entries, value length 1..3 (adversarial templates 1..6), ints one digit class per job <= 5 digits + 64-bit extremes", "thorough": "value length 1..6 everywhere, all 1024 populations of the all-types template"},
-			Assumptions: commonAssumptions,
-			Outside:     "float64/time value semantics (uninterpreted, round-trip axiom); ints beyond 5 digits except the extremes; templates outside the catalogue",
+			Explanation:  "Bounded symbolic execution of serialize -> encoding.Unmarshal -> serialize on the real SSA. Values are symbolic (strings: arbitrary non-SOH bytes, so '=', digits and text resembling other fields are inside the domain and the solver looks for contents that change the parse). Asserted: no error; every leaf has the same typed value (dynamic Go type included); unpopulated leaves stay null; every group has the same number of entries in the same order; re-serialization is byte-identical. Preconditions as in the property: unique tags, first member of every entry populated, no empty value.",
+			Rule:         "case = (template, population mask, entry counts, length selector, route, strict flag) x path",
+			Bounds:       map[string]string{"quick": "22 templates (14 generic + 8 with adversarial tag sets), depth <= 3, <= 3 entries, value length 1..3 (adversarial templates 1..6), ints one digit class per job <= 5 digits + 64-bit extremes", "thorough": "value length 1..6 everywhere, all 1024 populations of the all-types template"},
+			Assumptions:  commonAssumptions,
+			Outside:      "float64/time value semantics (uninterpreted, round-trip axiom); ints beyond 5 digits except the extremes; templates outside the catalogue",
 			Differential: 8,
 		}
 		m["C18"] = &CheckSpec{
@@ -207,11 +218,11 @@ func init() {
 				}
 				return jobs
 			},
-			Explanation: "Round-trip (as C02) and fix.ValueByTag oracles on templates built to be adversarial for substring search: tags that extend or truncate a template tag by one digit (1146/46/14 next to 146, 134/4 next to 34, 135/5 next to 35, 110/0 next to 10, 155/5 next to the first member 55, 1711 next to a nested count 711), String leaves of 2..6 unconstrained bytes before, inside and after groups (the solver itself places 'tag=' inside values when that can change the parse), with the genuine field/group present and absent.",
-			Rule:        "case = (adversarial template, population mask, entry counts, length selector) x path",
-			Bounds:      map[string]string{"quick": "5 adversarial templates, value length 2..6, <= 3 entries", "thorough": "more masks and entry-count combinations"},
-			Assumptions: commonAssumptions,
-			Outside:     "message boundary detection by Conn.runReader with values containing '10=' is checked under C04; raw sequence-number extraction in the session under C16",
+			Explanation:  "Round-trip (as C02) and fix.ValueByTag oracles on templates built to be adversarial for substring search: tags that extend or truncate a template tag by one digit (1146/46/14 next to 146, 134/4 next to 34, 135/5 next to 35, 110/0 next to 10, 155/5 next to the first member 55, 1711 next to a nested count 711), String leaves of 2..6 unconstrained bytes before, inside and after groups (the solver itself places 'tag=' inside values when that can change the parse), with the genuine field/group present and absent.",
+			Rule:         "case = (adversarial template, population mask, entry counts, length selector) x path",
+			Bounds:       map[string]string{"quick": "5 adversarial templates, value length 2..6, <= 3 entries", "thorough": "more masks and entry-count combinations"},
+			Assumptions:  commonAssumptions,
+			Outside:      "message boundary detection by Conn.runReader with values containing '10=' is checked under C04; raw sequence-number extraction in the session under C16",
 			Differential: 6,
 		}
 		m["C11"] = &CheckSpec{
@@ -260,11 +271,11 @@ func init() {
 				}
 				return jobs
 			},
-			Explanation: "Bounded symbolic execution of encoding.Unmarshal (strict and non-strict) and fix.ValueByTag on (a) completely symbolic byte strings of every length 0..n, (b) correctly framed messages whose body is n completely symbolic bytes and whose checksum text is symbolic, so the integrity check can pass and field/group parsing is reached with adversarial content, (c) valid serialized nested shapes with a window of w symbolic bytes replacing one field or filling one field boundary. Every Go runtime panic on any feasible path is a violation; the per-path instruction budget is the unwinding assertion (termination).",
-			Rule:        "case = (input class, length / window position and width, template) x path",
-			Bounds:      map[string]string{"quick": "raw n<=8, framed body n<=6, ValueByTag msg<=8 tag<=3 bytes, windows w<=3 over 8 nested shapes x 4 populations, templates with 1-digit tags (flat+group, group-in-group, component-in-group) and 5 catalogue shapes", "thorough": "raw n<=11, framed n<=9, windows w<=5"},
-			Assumptions: commonAssumptions,
-			Outside:     "longer arbitrary regions; the session's inbound closures are exercised with damaged messages under C16",
+			Explanation:  "Bounded symbolic execution of encoding.Unmarshal (strict and non-strict) and fix.ValueByTag on (a) completely symbolic byte strings of every length 0..n, (b) correctly framed messages whose body is n completely symbolic bytes and whose checksum text is symbolic, so the integrity check can pass and field/group parsing is reached with adversarial content, (c) valid serialized nested shapes with a window of w symbolic bytes replacing one field or filling one field boundary. Every Go runtime panic on any feasible path is a violation; the per-path instruction budget is the unwinding assertion (termination).",
+			Rule:         "case = (input class, length / window position and width, template) x path",
+			Bounds:       map[string]string{"quick": "raw n<=8, framed body n<=6, ValueByTag msg<=8 tag<=3 bytes, windows w<=3 over 8 nested shapes x 4 populations, templates with 1-digit tags (flat+group, group-in-group, component-in-group) and 5 catalogue shapes", "thorough": "raw n<=11, framed n<=9, windows w<=5"},
+			Assumptions:  commonAssumptions,
+			Outside:      "longer arbitrary regions; the session's inbound closures are exercised with damaged messages under C16",
 			Differential: 6,
 		}
 		m["C03"] = &CheckSpec{
@@ -274,7 +285,7 @@ func init() {
 				var jobs []Job
 				type sh struct {
 					t, mask, ls, n int
-					c          [3]int
+					c              [3]int
 				}
 				shapes := []sh{{1, 7, 3, 46, [3]int{}}, {1, 6, 1, 36, [3]int{}}, {4, 1<<30 - 1, 0, 60, [3]int{1, 0, 0}}}
 				if !quick {
@@ -554,12 +565,12 @@ func init() {
 				}
 				return jobs
 			},
-			Explanation:  "Symbolic steps of the Logout handler, Session.Logout and Session.Stop with the close timeout a symbolic duration (0 included): (0) peer Logout while logged on -> exactly one Logout, not logged on, a repeated Logout is not acknowledged again; (1) local Logout then peer Logout -> nothing transmitted, logout event once; (2) Stop: one Logout, exactly one deadline timer armed with exactly CloseTimeout, context not yet cancelled; peer's Logout -> context cancelled without the timer firing; (3) Stop, no answer, the harness fires the deadline closure -> context cancelled.",
-			Rule:         "case = (role, scenario) x path",
-			Bounds:       map[string]string{"quick": "4 scenarios x 2 roles; CloseTimeout symbolic in [0, 2^40] ns", "thorough": "same"},
-			Assumptions:  append(append([]string{}, sessAssume...), "'at the latest after CloseTimeout' is the contract of time.AfterFunc (recorded stub); scenarios 2/3 are replayed in the engine because the native build cannot fire the timer on demand"),
-			Outside:      "real-time behaviour of time.AfterFunc",
-			Replay:       "engine",
+			Explanation: "Symbolic steps of the Logout handler, Session.Logout and Session.Stop with the close timeout a symbolic duration (0 included): (0) peer Logout while logged on -> exactly one Logout, not logged on, a repeated Logout is not acknowledged again; (1) local Logout then peer Logout -> nothing transmitted, logout event once; (2) Stop: one Logout, exactly one deadline timer armed with exactly CloseTimeout, context not yet cancelled; peer's Logout -> context cancelled without the timer firing; (3) Stop, no answer, the harness fires the deadline closure -> context cancelled.",
+			Rule:        "case = (role, scenario) x path",
+			Bounds:      map[string]string{"quick": "4 scenarios x 2 roles; CloseTimeout symbolic in [0, 2^40] ns", "thorough": "same"},
+			Assumptions: append(append([]string{}, sessAssume...), "'at the latest after CloseTimeout' is the contract of time.AfterFunc (recorded stub); scenarios 2/3 are replayed in the engine because the native build cannot fire the timer on demand"),
+			Outside:     "real-time behaviour of time.AfterFunc",
+			Replay:      "engine",
 		}
 		m["C19"] = &CheckSpec{
 			ID: "C19",
@@ -722,9 +733,9 @@ func init() {
 			Explanation: "(a) Inductive step: the outgoing counter is set to a symbolic n after a real logon exchange (peer identifiers symbolic, ResetSeqNumFlag symbolic); one message is produced by each producer kind (application Send x3 types, reply to an inbound TestRequest, Reject of a damaged message, heartbeat-timer expiry, silence-timer expiry); asserted: exactly one message transmitted, MsgSeqNum = n+1, Sender/TargetCompID = the session's (mirrored on the acceptor), SendingTime in FIX layout and read between entry and exit of the call, counter = n+1, a later session on the same store continues with n+2; the logon exchange itself uses number 1. (b) Schedule exploration: two (thorough: three) concurrent producers - application Send with another Send, with the reply to an inbound TestRequest, with a heartbeat-timer expiry, with a Reject - every interleaving at synchronisation operations with at most 2 preemptions; asserted: the outbound queue holds consecutive ascending numbers. (c) Outbound buffer of 1 or 2 with a concurrent writer goroutine taking messages from the queue while one goroutine sends three messages (and optionally a second goroutine one more): coarse schedule exploration (switches at channel/select/cancel/go operations, preemption bound 0..2, two pick rotations); asserted: the writer receives 1,2,3,... in order.",
 			Rule:        "case = (role, producer kind, counter digit class, reset flag) x path for (a); (role, producer combination) x schedule for (b)",
 			Bounds:      map[string]string{"quick": "n in 1..8 / 10..98; <=2 concurrent producers, one message each, preemption bound 2 (~600-3600 schedules per combination); buffer 1..2, 3+1 messages, preemption bound <=2", "thorough": "plus a three-producer combination with preemption bound 1"},
-			Assumptions:  conc,
-			Outside:      "more than 3 concurrent producers or more than one message each; preemption between arbitrary instructions (needs C20); GOMAXPROCS; stores other than the bundled one",
-			Replay:       "engine",
+			Assumptions: conc,
+			Outside:     "more than 3 concurrent producers or more than one message each; preemption between arbitrary instructions (needs C20); GOMAXPROCS; stores other than the bundled one",
+			Replay:      "engine",
 		}
 		m["C08"] = &CheckSpec{
 			ID: "C08",
@@ -771,9 +782,9 @@ func init() {
 			Explanation: "Four solver-checked lemmas over the real code. (1) Parameters: after a logon with heartbeat interval N (symbolic 2- and 3-digit, plus concrete boundary values) exactly two timers and two goroutines exist, the heartbeat timer's timeout is N s, polling granularity <= N/10. (2) Refresh: each outbound message (application Send, reply produced on the inbound path) sets the heartbeat timer's lastUpdate to a clock value read during that step. (3) Timer.TakeTimeout run as a goroutine against a symbolic non-decreasing 64-bit clock, harness-driven poll ticks and symbolic decisions to Refresh between ticks: at every tick, returned <=> reading >= latest refresh + timeout, and never sooner than timeout after entry (decided by cvc5 with integer blasting; z3 does not finish these 64-bit signed comparisons). (4) One iteration of the heartbeat goroutine after the timer expires: exactly one Heartbeat without TestReqID, also while waiting for a TestRequest answer; it exits silently when the session is cancelled; it waits for the next period afterwards. (5) History logon(N1), logout exchange, logon(N2) on one session: afterwards every timer whose expiry still emits a Heartbeat is armed with at least the interval in force, and one armed with exactly it is live. Composition into 'gap <= N + N/10 + scheduling slack, no unsolicited Heartbeat before N' is argued in DESIGN.md.",
 			Rule:        "case = lemma instance x path",
 			Bounds:      map[string]string{"quick": "TakeTimeout: <=3 poll ticks with optional refresh before each, timeout in [10us, 2^40 ns], instants < 2^61 ns; N in 10..999 symbolic and {1,2,5,19,20,21,39,40,60,3600}", "thorough": "<=5 poll ticks"},
-			Assumptions:  conc,
-			Outside:      "real scheduling slack; behaviour of time.Ticker itself (stubbed: delivers ticks when the harness says so); more than two logons on one session object",
-			Replay:       "engine",
+			Assumptions: conc,
+			Outside:     "real scheduling slack; behaviour of time.Ticker itself (stubbed: delivers ticks when the harness says so); more than two logons on one session object",
+			Replay:      "engine",
 		}
 		m["C09"] = &CheckSpec{
 			ID: "C09",
@@ -818,9 +829,9 @@ func init() {
 			Explanation: "Lemmas over the real code. (1) The silence timer is armed with N + max(1, N/20) seconds (symbolic and boundary N). (2) Every inbound message of every kind, damaged or not, refreshes the silence timer to the clock value of that step and cancels a pending disconnect (state 'waiting for TestRequest answer' is left). (3) Iterations of the silence goroutine with the harness firing the timer: first expiry -> exactly one TestRequest with TestReqID 1 and no disconnect; second expiry without inbound traffic -> disconnect event once, session context cancelled, handler stopped, goroutine exits, no further TestRequest; any inbound message in the second period -> the next expiry sends TestRequest 2 instead of disconnecting; cancelled session -> silent exit. (4) The TakeTimeout lemma of C08 (a timer cannot expire while the last refresh is younger than its timeout, and expires at the first poll after it) instantiated for a re-used timer. (5) History logon(N1), logout exchange, logon(N2) on one session: afterwards every timer whose expiry still emits a TestRequest is armed with at least the period in force, and one armed with exactly it is live.",
 			Rule:        "case = lemma instance x path",
 			Bounds:      map[string]string{"quick": "as C08; inbound kinds: 8 message kinds x 6 damage kinds", "thorough": "same"},
-			Assumptions:  conc,
-			Outside:      "that cancelling the handler context makes Acceptor.serve / Initiator.Serve close the socket is covered for the peer-close case by C04's plumbing harness only; real-time slack",
-			Replay:       "engine",
+			Assumptions: conc,
+			Outside:     "that cancelling the handler context makes Acceptor.serve / Initiator.Serve close the socket is covered for the peer-close case by C04's plumbing harness only; real-time slack",
+			Replay:      "engine",
 		}
 	})
 }
